@@ -20,13 +20,13 @@ EV = {0: 'Enq', 1: 'Dropped', 2: 'Dispatch', 3: 'Requeue', 4: 'Handler', 5: 'Han
       13: 'QuitCb', 14: 'RunEnter', 15: 'RunReturn', 16: 'Kill', 17: 'Ext', 18: 'Mark', 19: 'U', 20: 'SigNew',
       21: 'RegHandler', 22: 'RegSource', 23: 'SetQuitCb', 24: 'Top'}
 UT = {1: 'SETUP', 2: 'REFRESH', 3: 'SHOW', 4: 'SEPARATOR', 5: 'PROMPT', 7: 'INPUT', 8: 'CLOSED', 10: 'MODAL_RETURN',
-      11: 'REFUSED', 12: 'READY', 13: 'GOT', 14: 'MARK', 15: 'STACK', 16: 'ASK', 17: 'OP', 18: 'REQ', 19: 'ACTION'}
+      11: 'REFUSED', 12: 'READY', 13: 'GOT', 14: 'MARK', 15: 'STACK', 16: 'ASK', 17: 'OP', 18: 'REQ', 19: 'ACTION', 20: 'WAITED'}
 
 MON = {"C04": 4, "C05": 5, "C06": 6, "C07": 7, "C08": 8, "C18": 18, "C17": 17, "C09": 9}
 # which user-event tags / loop events each property's correspondence compares
 PROJ_U = {
     "C04": {1, 2, 3, 4, 15, 17}, "C05": {1, 2, 3, 7, 10, 12, 15, 17}, "C06": {5, 7, 12, 18}, "C07": {7, 19, 17, 18, 10},
-    "C08": {1, 2, 3, 8, 15, 17}, "C18": {5, 11, 12, 13, 16}, "C17": {3, 4}, "C09": {8, 15, 17, 10},
+    "C08": {1, 2, 3, 8, 15, 17}, "C18": {5, 11, 12, 13, 16, 20}, "C17": {3, 4}, "C09": {8, 15, 17, 10},
 }
 PROJ_L = {
     "C04": {24}, "C05": {7, 8, 9, 24}, "C06": {4, 5, 17, 24}, "C07": {0, 1, 4, 5, 20, 24}, "C08": {24}, "C18": {4, 5, 17, 24}, "C17": {24},
